@@ -132,6 +132,29 @@ def brace_values(rng, toks):
     return out, changed
 
 
+class UnassignedReads:
+    """Records whether a run reads a variable that holds nothing (CallStack.get_variable answers None)."""
+
+    def __enter__(self):
+        from bardolph.vm import call_stack
+        self.cls = call_stack.CallStack
+        self.orig = self.cls.get_variable
+        self.seen = False
+        me = self
+
+        def get_variable(cs, identifier):
+            v = me.orig(cs, identifier)
+            if v is None:
+                me.seen = True
+            return v
+        self.cls.get_variable = get_variable
+        return self
+
+    def __exit__(self, *a):
+        self.cls.get_variable = self.orig
+        return False
+
+
 def compile_key(text):
     p, e = lang.compile_script(text)
     return ('A#' + lang.show_program(p)) if p is not None else 'R#' + e, p
@@ -333,9 +356,14 @@ def run(ctx):
             if p4 is None:
                 ctx.counterexample('C16/braces-round-value-rejected', 'curly braces round single values make the script fail to compile: %s' % k4[:120], {'text': text, 'relayout': t4})
             else:
-                r0 = lang.run_program_impl(p0, world, max_steps=4000)
+                with UnassignedReads() as ur:
+                    r0 = lang.run_program_impl(p0, world, max_steps=4000)
                 r4 = lang.run_program_impl(p4, world, max_steps=4000)
-                if r0[0] != 'FUEL' and r4[0] != 'FUEL' and (r0[0], r0[1]) != (r4[0], r4[1]):
+                if ur.seen:
+                    # the script reads a variable no statement has assigned on this path: a run-time error of the script in either
+                    # writing (a bare name hands None on, a braced one stops the machine) -- not a valid script, not compared
+                    dist['braces_unassigned_read'] = dist.get('braces_unassigned_read', 0) + 1
+                elif r0[0] != 'FUEL' and r4[0] != 'FUEL' and (r0[0], r0[1]) != (r4[0], r4[1]):
                     ctx.counterexample('C16/braces-round-value-change-behaviour', 'curly braces round single values change what the script does', {'text': text, 'relayout': t4, 'world': world})
     ctx.extra['layout_distribution'] = dist
     # fixed forms from the reference: no white space needed next to operators, braces, brackets
